@@ -84,6 +84,13 @@ func readGitConfig(configs ...*git.ConfigurationSource) (gf *GitFetcher, extensi
 					ignored = append(ignored, key)
 					continue
 				}
+				// Remote names may contain dots, and some remote.*
+				// keys have no name at all: of all of them, only
+				// remote.<name>.lfsurl is safe.
+				if gc.OnlySafeKeys && (len(parts) < 3 || parts[len(parts)-1] != "lfsurl") {
+					ignored = append(ignored, key)
+					continue
+				}
 
 				allowed = true
 				remote := strings.Join(parts[1:len(parts)-1], ".")
